@@ -24,6 +24,7 @@ import ast
 
 from ..dataflow import is_shared
 from ..repo import AnalysisError, FuncInfo, own_nodes
+from .roles import dispatcher_roles
 from .common import (
     DISPATCHER,
     cached_methods,
@@ -73,8 +74,12 @@ def _origin_cached(o):
     return None
 
 
+CACHE = ["_cache"]  # the dispatcher's memo dict, found by role in run()
+
+
 def run(ctx):
     chk, repo = ctx.chk, ctx.repo
+    CACHE[0] = dispatcher_roles(ctx)["cache"]
     chk.rule("R05.a", "state write -> cache clear before any notify/return, on every path of every Dispatcher method")
     chk.rule("R05.b", "no mutation of an object aliased to a memoised query result (package wide, through parameters)")
     chk.rule("R05.c", "memoised methods take only self (memo key is the method name)")
@@ -106,7 +111,7 @@ def run(ctx):
             if f.cls is not None and disp.qualname in f.cls.mro:
                 read_set |= self_attr_reads(f)
     method_names = set(disp.methods)
-    state = {a for a in read_set if a not in method_names and a not in ("_cache", "subscribers", "__class__")}
+    state = {a for a in read_set if a not in method_names and a not in (CACHE[0], "subscribers", "__class__")}
     chk.analysed["memoised_read_set"] = sorted(state)
     if len(state) < 4:
         raise AnalysisError(f"read set of memoised queries implausibly small: {sorted(state)}")
@@ -136,7 +141,7 @@ def run(ctx):
                     root, chain, fr = resolve_root(ev)
                     if fr is None or fr.parent is not None or root != "self" or not chain:
                         continue
-                    if chain[0] == "_cache":
+                    if chain[0] == CACHE[0]:
                         if _is_clear(ev):
                             dirty = None
                         continue
@@ -166,7 +171,7 @@ def run(ctx):
     chk.floor("R05.a", len(entries), 12, "Dispatcher methods")
     # the dispatch path must contain at least one state write + clear
     if not any(i["rule"] == "R05.a" and i["verdict"] != "holds" for i in chk.instances) and not any(
-        ev.kind == "write" and resolve_root(ev)[1][:1] == ["_cache"]
+        ev.kind == "write" and resolve_root(ev)[1][:1] == [CACHE[0]]
         for p in eng.paths(repo.need_method(disp, "dispatch"), disp) for ev in p.events
     ):
         raise AnalysisError("no cache clear found on any dispatch path (matcher blind or clear removed)")
@@ -257,7 +262,7 @@ def run(ctx):
         bad = False
         for w in eff.closure_writes(m, disp, max_depth=5):
             root, chain, _ = resolve_root(w.event)
-            if root == "self" and chain[:1] == ["_cache"]:
+            if root == "self" and chain[:1] == [CACHE[0]]:
                 continue
             shared = [o for o in w.origins if is_shared(o) and o[0] not in ("unknown",)]
             if not shared:
@@ -392,6 +397,13 @@ def _unscheduled_observer(ctx):
                     ok = True
             elif isinstance(v, ast.Call) and ast.unparse(v.func).split(".")[-1] == "deepcopy":
                 ok = True
+            elif (
+                isinstance(v, ast.Call) and isinstance(v.func, ast.Name) and v.func.id == "list" and len(v.args) == 1
+                and isinstance(v.args[0], ast.Call) and isinstance(v.args[0].func, ast.Name) and v.args[0].func.id == "map"
+                and len(v.args[0].args) == 2 and ast.unparse(v.args[0].args[0]).split(".")[-1] == "deque"
+                and isinstance(v.args[0].args[1], ast.Attribute) and v.args[0].args[1].attr == "jobs"
+            ):
+                ok = True  # list(map(deque, instance.jobs)): one fresh deque per job
             elif isinstance(v, ast.Name) and _filled_per_job(rst, v.id):
                 ok = True
             else:
@@ -506,6 +518,9 @@ def _deque_index(fi, tgt):
         for n in own_nodes(fi.node):
             if isinstance(n, ast.Assign) and any(isinstance(t, ast.Name) and t.id == tgt.id for t in n.targets):
                 tgt = n.value
+                break
+            if isinstance(n, ast.NamedExpr) and isinstance(n.target, ast.Name) and n.target.id == tgt.id:
+                tgt = n.value  # if (d := self.mirror[job_id]): d.popleft()
                 break
     if isinstance(tgt, ast.Subscript):
         return tgt.slice
